@@ -30,6 +30,18 @@ var commonAssumptions = []string{
 func allChecks() []CheckSpec {
 	return []CheckSpec{
 		{
+			ID: "C01",
+			Harnesses: []HarnessSpec{
+				{Fn: "verifC01TwoAgents", Lemma: "two real agents (controlling / controlled, each holding the other's credentials and candidates) joined by a harness network in which every emitted datagram is in flight until delivered, dropped or duplicated: an adversarial prefix of explorer-chosen steps from {tick A, tick B, deliver oldest to B, deliver oldest to A, drop, drop, duplicate/reorder}, then a fair loss-free suffix of 6 rounds. At every step: the selection invariant holds on both sides and Connected is reported exactly while a pair is selected; if the path is not reachable in both directions neither side ever selects or connects; if it is, after the suffix both are Connected and the selected pairs are mirror images",
+					Bounds: "quick: 1 candidate per side (1 pair), 3 adversarial steps; thorough: 2 candidates per side (4 pairs), 4 steps; reachability matrix per direction; real stun.Build/Decode on every datagram; transaction ids and clock symbolic", MustReach: []string{"reachable", "unreachable", "done"}},
+			},
+			Assumptions: append([]string{
+				"bounded: the adversarial prefix has 3 (4) steps and the suffix 6 rounds; 'eventually' is checked only as 'within the suffix'",
+				"ticks call the selector's ContactCandidates directly (the timer goroutine is outside); integrity contract; freshly drawn transaction ids pairwise distinct; clock steps <= 1 ms",
+			}, commonAssumptions...),
+			Outside: "more candidates/topologies (srflx, NAT mappings), longer loss prefixes, Restart during the session, real timers and sockets",
+		},
+		{
 			ID: "C11",
 			Harnesses: []HarnessSpec{
 				{Fn: "verifC11Notifier", Lemma: "schedule exploration over the REAL handlerNotifier (Enqueue*, the drainer goroutines it spawns, Close): two concurrent producers (A: two events, B: one) on any of the three streams with a slow handler that yields inside: the handler never runs concurrently with itself, every event is delivered exactly once, A's events in their order, GracefulClose returns only when no handler is running, and nothing is invoked after it returned",
@@ -368,7 +380,8 @@ func allChecks() []CheckSpec {
 				{Fn: "verifC17PairMonotone", Lemma: "pair priority is monotone in each argument; a higher min dominates",
 					Bounds: "all (g1,d1) <= (g2,d2) componentwise over 32-bit priorities", MustReach: []string{"done"}},
 				{Fn: "verifC17Foundation", Lemma: "foundation equal iff (type, address, network type) equal, CRC-32 uninterpreted and assumed collision-free on the compared inputs",
-					Bounds: "address strings of length 0..2 (quick) / 0..4 (thorough), arbitrary bytes; all types and network types", MustReach: []string{"done"}},
+					Bounds: "address strings of length 0..2 (quick) / 0..4 (thorough), arbitrary bytes; all types and network types", MustReach: []string{"done"},
+					Cfg: func(c *HarnessCfg, tier int) { c.CRCInjective = true }},
 			},
 			Assumptions: append([]string{
 				"hash/crc32.ChecksumIEEE is an uninterpreted function, injective on the inputs compared within one path (the property is stated up to CRC-32 collisions)",
